@@ -238,6 +238,53 @@ def replay_sweep(a):
     return None if not bad else {"after": bad[0], "anchor": bad[1], "expected": bad[2], "observed": bad[3]}
 
 
+def helper_cases():
+    """[(label, expected, observed)] the conversion helpers the expansions are built from, on complete small
+    ranges: i2osp (RFC 8017 4.1: "integer too large" must be refused), os2ip, xor of equal-length strings"""
+    Hm = importlib.import_module("py_ecc.bls.hash")
+    out = []
+    f = getattr(Hm, "i2osp", None)
+    if f is not None:
+        for xlen in list(range(0, 5)) + [48, 64]:
+            top = 256 ** xlen
+            xs = sorted({0, 1, 255, 256, 257, 65535, 65536, top - 1, top, top + 1, top // 2, top // 256, 2 ** 61 - 1} | set(range(0, 300, 7)))
+            for x in xs:
+                exp = ("ok", x.to_bytes(xlen, "big")) if 0 <= x < top else ("raise", None)
+                got = _call(f, x, xlen)
+                got = ("ok", bytes(got[1])) if got[0] == "ok" and isinstance(got[1], (bytes, bytearray)) else (("raise", None) if got[0] == "raise" else got)
+                out.append(("i2osp(%s, %d)" % (hex(x), xlen), exp, got))
+        out.append(("i2osp(-1, 2)", ("raise", None), ("raise", None) if _call(f, -1, 2)[0] == "raise" else "accepted"))
+    g = getattr(Hm, "os2ip", None)
+    if g is not None:
+        for b in [b"", b"\x00", b"\x00\x01", b"\xff" * 48, bytes(range(64)), b"\x80" + bytes(31), bytes(31) + b"\x01"]:
+            out.append(("os2ip(%d bytes)" % len(b), ("ok", int.from_bytes(b, "big")), _call(g, b)))
+    x = getattr(Hm, "xor", None)
+    if x is not None:
+        for n in list(range(0, 70)) + [128, 255]:
+            for (a_, b_) in ((_msg(n, 1), _msg(n, 2)), (bytes(n), _msg(n, 3)), (b"\x00" + _msg(n, 4)[1:], b"\x00" + _msg(n, 5)[1:]) if n else (b"", b""),
+                             (b"\xff" * n, b"\xff" * n)):
+                got = _call(x, a_, b_)
+                got = ("ok", bytes(got[1])) if got[0] == "ok" and isinstance(got[1], (bytes, bytearray)) else got
+                out.append(("xor(%d bytes)" % n, ("ok", bytes(u ^ v for u, v in zip(a_, b_))), got))
+    return out
+
+
+def task_helpers(a, env):
+    r = R("i2osp/os2ip/xor")
+    for i, (lbl, exp, got) in enumerate(helper_cases()):
+        r.ev += 1
+        r.dk.add((lbl, i))
+        if exp != got:
+            r.viol("C15:helper:%s" % lbl.split("(")[0], ME + ":replay_helpers", {"i": i}, exp, got, note=lbl)
+    r.sample({"i2osp": "x around 256^xlen for xlen in 0..4, 48, 64", "xor": "lengths 0..69, 128, 255 incl. leading zero bytes"})
+    return r
+
+
+def replay_helpers(a):
+    lbl, exp, got = helper_cases()[a["i"]]
+    return None if exp == got else {"case": lbl, "expected": exp, "observed": got}
+
+
 def replay_exotic(a):
     for lbl, exp, got in exotic_case(a):
         if lbl == a["label"] and exp != got:
@@ -336,6 +383,7 @@ def run(ctx):
         tasks.append(("xmd_pairs", {"h1s": [h1], "h2s": hashes}))
     tasks.append(("xmd_reuse", {"hs": ["sha256", "sha512", "sha3_256"]}))
     tasks.append(("exotic", {}))
+    tasks.append(("helpers", {}))
     tasks.append(("sweep", {"n": 1200 if q else 20000}))
     # very long messages at power-of-two sizes (chunked / streamed hashing boundaries)
     for hn in ("sha256", "sha512"):
